@@ -87,6 +87,8 @@ def impl_main(payload):
     rng = random.Random(payload["seed"])
     eqs = ["C_0*X_0 + C_1", "C_0*X_0*X_0 + C_1*X_1 + C_2", "sin(C_0*X_0) + C_1*X_1", "C_0*exp(C_1*X_0) + X_1",
            "C_0/(X_0*X_0 + 2.0) + C_1*X_1*X_0", "X_0*X_1 + C_0", "X_0", "X_1"]
+    def same_val(a, b):
+        return a == b or (math.isnan(a) and math.isnan(b))
     for r in range(payload["oracle_runs"]):
         s = rng.randrange(10 ** 6)
         rs = np.random.RandomState(s)
@@ -136,6 +138,25 @@ def impl_main(payload):
                         orc["viol"].append("%s%s fitness of %s is %r, definition gives %r (seed %d, after data swap: %s)"
                                            % (metric, " relative" if rel else "", eq, val, want, s, bool(phase)))
                         continue
+                    # the residual vector and its Jacobian against their definitions: f(x) - y (divided by y in relative mode) and
+                    # d f / d constants (likewise), the latter from the equation's own constant-gradient
+                    if L > 0:
+                        vec, jac = fit.get_fitness_vector_and_jacobian(g)
+                        f_, dfdc_ = g.evaluate_equation_with_local_opt_gradient_at(x)
+                        dfdc_ = np.asarray(dfdc_, dtype=float).reshape(len(x), L)
+                        jw = dfdc_ / yy if rel else dfdc_
+                        vec, jac = np.asarray(vec, dtype=float).reshape(-1), np.asarray(jac, dtype=float).reshape(len(x), L)
+                        if np.all(np.isfinite(e)) and not np.allclose(vec, e, rtol=1e-9, atol=1e-12):
+                            orc["viol"].append("%s%s fitness vector of %s is %r, the residuals are %r (seed %d)"
+                                               % (metric, " relative" if rel else "", eq, vec.tolist(), e.tolist(), s))
+                        elif np.all(np.isfinite(jw)) and not np.allclose(jac, jw, rtol=1e-9, atol=1e-12):
+                            orc["viol"].append("%s%s Jacobian of %s is %r, d residual / d constants is %r (seed %d)"
+                                               % (metric, " relative" if rel else "", eq, jac.tolist(), jw.tolist(), s))
+                        if not (np.array_equal(fit.training_data.x, x) and np.array_equal(fit.training_data.y, yy)):
+                            orc["viol"].append("the Jacobian call changed the training data held by the fitness function (seed %d)" % s)
+                        if not same_val(float(fit(g)), val):
+                            orc["viol"].append("%s%s fitness of %s changed from %r to %r after a Jacobian call (seed %d)"
+                                               % (metric, " relative" if rel else "", eq, val, float(fit(g)), s))
                     cnt = fit.eval_count
                     v2, grad = fit.get_fitness_and_gradient(g)
                     if fit.eval_count != cnt + 1:
